@@ -132,6 +132,9 @@ const alphabet = "/:.AaCcDdEeFfGgHhIiLlMmNnOoPpRrSsTtUuVvWwXxYy0134 \t\n\x00\xff
 // 64-bit integer loses what is shifted out), the high bit set on the first byte, the token doubled,
 // separators glued on, 256 more bytes (a length kept in 8 bits), and one character replaced by a
 // multi-byte character whose code point ends in the same byte (a rune truncated to a byte).
+// Disguises exposes disguises (C09: offered right after the real token has been accepted).
+func Disguises(a string) []string { return disguises(a) }
+
 func disguises(a string) []string {
 	if a == "" {
 		return nil
@@ -144,6 +147,14 @@ func disguises(a string) []string {
 	}
 	out := []string{"\x00" + a, "\x00\x00" + a, a + "\x00", a + "\x00\x00", pad(4), pad(8), string([]byte{a[0] | 0x80}) + a[1:], a + a, a + "/", "/" + a, a + ":", ":" + a,
 		a + strings.Repeat("\x00", 256), a + strings.Repeat("Q", 256), a + strings.Repeat(a, 256/len(a))}
+	// same length, one character replaced (a key built from a prefix or a suffix of the token)
+	for pos := 0; pos < len(a); pos++ {
+		for _, c := range []byte{'X', 'Q', 'n', 0, '.'} {
+			if a[pos] != c {
+				out = append(out, a[:pos]+string(c)+a[pos+1:])
+			}
+		}
+	}
 	for _, pos := range []int{0, len(a) - 1} {
 		for _, d := range []rune{0x100, 0x400, 0x2100, 0x10000} {
 			out = append(out, a[:pos]+string(rune(a[pos])+d)+a[pos+1:])
@@ -199,6 +210,10 @@ func init() {
 				// the Modified prefix put on / taken off (a Set that strips "M" and dispatches on the base name)
 				addA("M" + m.Abv)
 				addA("MM" + m.Abv)
+				for _, pc := range []string{".", "-", ",", ";", "0", "9"} {
+					addA(pc + m.Abv)
+					addA(m.Abv + pc)
+				}
 				if strings.HasPrefix(m.Abv, "M") && len(m.Abv) > 1 {
 					addA(m.Abv[1:])
 				}
@@ -700,6 +715,30 @@ func OneEditNeighbourhood(vi int, s string) []string {
 		out = append(out, w[0]+s+w[1])
 		if x.header != "" { // decoration between header and body too
 			out = append(out, x.header+w[0]+strings.TrimPrefix(s, x.header)+w[1])
+		}
+	}
+	return out
+}
+
+// Repeats enumerates s with one element written k more times, for the counts at which a counter of 8 or 16 bits
+// wraps: every element for the small counts, the first base and the first optional element for the large ones
+// (each such string is several hundred kilobytes long); the copies are appended, or inserted right after the element.
+func Repeats(vi int, s string) []string {
+	x := split(vi, s)
+	var out []string
+	nb := len(spec.Versions[vi].Base())
+	for i, el := range x.elems {
+		counts := []int{254, 255, 256, 257, 511, 512}
+		if i == 0 || i == nb {
+			counts = append(counts, 65534, 65535, 65536, 65537)
+		}
+		for _, k := range counts {
+			tail := strings.Repeat("/"+el, k)
+			out = append(out, s+tail)
+			if k <= 512 {
+				e := append([]string{}, x.elems[:i+1]...)
+				out = append(out, x.header+strings.Join(e, "/")+tail+"/"+strings.Join(x.elems[i+1:], "/"))
+			}
 		}
 	}
 	return out
